@@ -504,6 +504,15 @@ static void cb_rec_cancel_and_reissue(void *arg, ares_status_t st, size_t, const
   ares_cancel(g_chain_ch);
   q_query(g_chain_ch, "b.example.com");
 }
+// completion callback that takes (virtual) time: other deadlines may pass while the event thread is inside it
+static int64_t g_callback_time_us = 0;
+static void cb_rec_slow(void *arg, ares_status_t st, size_t, const ares_dns_record_t *)
+{
+  done_tok((int)(intptr_t)arg, (int)st);
+  int64_t t0 = exb_now_us();
+  exb_event_wait(nullptr, nullptr, 200);
+  g_callback_time_us += exb_now_us() - t0;
+}
 static int new_tok()
 {
   int t               = g_ntoks++;
@@ -704,6 +713,16 @@ static std::vector<Prog> programs()
                  join(a);
                  wait_all(ch, "L5");
                } });
+  v.push_back({ "L6-deadline-passes-while-a-callback-runs", "c07", 0, 0, 0, 1, [](ares_channel_t *ch) {
+                 // both queries go unanswered; the first one's completion callback (final timeout) takes 200 ms, during
+                 // which the second one's final deadline passes: when the event thread asks for its next wait the
+                 // remaining time is zero, which must not be mistaken for "no timeout"
+                 int t = new_tok();
+                 ares_query_dnsrec(ch, "slow.example.com", ARES_CLASS_IN, ARES_REC_TYPE_A, cb_rec_slow, (void *)(intptr_t)t, nullptr);
+                 vsleep(100);
+                 q_query(ch, "second.example.com");
+                 wait_all(ch, "L6");
+               } });
   v.push_back({ "L4-tcp-idle-kept-open-then-silent", "c07", ARES_FLAG_STAYOPEN | ARES_FLAG_USEVC, 1, 0, 1, [](ares_channel_t *ch) {
                  q_query(ch, "warm.example.com");
                  wait_all(ch, "L4 warm-up");
@@ -779,6 +798,7 @@ static void run_program(const Prog &p, int evsys, const unsigned char *prefix, i
   int64_t budget_us = 0;
   for (int i = 0; i < TRIES * p.nservers; i++) budget_us += (int64_t)TIMEOUT_MS * 1000 * (1LL << (i / p.nservers));
   budget_us += 60000;
+  budget_us += g_callback_time_us; // time the application itself spent inside completion callbacks on the event thread
   for (int t = 0; t < g_ntoks; t++) {
     if (g_toks[t].count != 1) viol("C11:token:not-exactly-once", fmt("token %d completed %d times over the life of the channel", t, g_toks[t].count.load()));
     else if (g_toks[t].t_done - g_toks[t].t_issue > budget_us)
